@@ -7,7 +7,7 @@ SPECDIRS = ("c12",)
 
 INVARIANTS = ("InvIdempotent InvNoWildLeft InvErrOnlyUnspec InvSorted InvExactStar "
               "InvDesignDeviatesOnlyWhereNamed")
-SLICES = ["positions", "functions", "multicall", "sources", "extras", "typepairs", "shadow", "wide", "unspecified"]   # spec/c12/Slices_c12.tla
+SLICES = ["positions", "functions", "multicall", "sources", "extras", "typepairs", "shadow", "wide", "dbs", "subtypes", "unspecified"]   # spec/c12/Slices_c12.tla
 CONSTS = ["Cores", "GroupBys", "Befores", "Afters", "Srcs", "Conds", "Schemas"]
 
 # The seeded slice: VERIF_SEED draws a sub-product from the whole vocabulary (Slices_c12!All*).
